@@ -15,6 +15,20 @@ def _c43_classes(i, o):
             if 4294967295 in i[1]:
                 cls.append('store height u32::MAX present')
         return cls
+    if form == 3:
+        rss = i[2]
+        cls = ['block txs=%d' % min(len(rss), 5)]
+        rev = [any(r[0] in (1, 2) for r in rs) for rs in rss]
+        msg = [any(r[0] == 3 for r in rs) for rs in rss]
+        if any(rev):
+            cls.append('block with a reverted/panicked tx')
+        if any(m and not r for m, r in zip(msg, rev)):
+            cls.append('block with a message from a successful tx')
+        if any(rev) and any(m and not r for m, r in zip(msg, rev)):
+            cls.append('block: revert in one tx, message in another')
+        if any(m and r for m, r in zip(msg, rev)):
+            cls.append('block: message in a reverted tx')
+        return cls
     cls = ['roundtrip' if form == 1 else 'overridden proto']
     for m in i[2]:
         cls.append('input ' + _IN[m[0]])
@@ -31,17 +45,21 @@ PROPS = {
         id='C43', cluster='Aggr', crate='h-aggr', tag=43,
         n={'quick': 1200, 'thorough': 30000},
         theorems=['from_proto_to_proto', 'from_proto_to_proto_message', 'narrowing_is_checked',
-                  'store_contiguous', 'store_accepts_iff', 'store_checker_sound'],
+                  'store_contiguous', 'store_accepts_iff', 'store_checker_sound', 'outbox_ids_recomputed'],
         classify=_c43_classes,
         rule='store: every sequence of <= 3 heights over {0,1,2,3,u32::MAX-1,u32::MAX} on an empty in-memory '
              'database + random walks; conversions: Script transactions carrying every input variant (7) / output '
              'variant (5) alone and random mixtures, integer fields at 0/1/width boundaries, policies subsets: real '
              'to_proto read back field by field through a visitor and compared with the model, real round trip flag; '
              'overridden proto messages (every narrow field at 65535/65536/u32::MAX, ignored fields, policy bits '
-             'incl. unknown bits) through the real from_proto vs the model (ok / error / panic). '
+             'incl. unknown bits) through the real from_proto vs the model (ok / error / panic); whole blocks: every '
+             'assignment of 6 receipt shapes (none/return/revert/panic/message/message+revert) to 2 (thorough 3) '
+             'transactions + random blocks of 0..5 transactions, outbox ids derived per transaction as the producer '
+             'does, real convert_block -> decode -> fuel_block_from_protobuf compared with the original block '
+             '(equality, message_receipt_count, message_outbox_root, id). '
              'non-trivial = distinct input with a non-empty, non-panic observation',
         assumptions=['PARTIAL: modelled = policies, all 7 input variants, all 5 output variants, utxo id, tx pointer, '
-                     'store_block height rule. NOT modelled = block header, script/create/mint/upgrade/upload/blob '
+                     'store_block height rule, the outbox-id recomputation rule of fuel_block_from_protobuf. NOT modelled = block header fields (compared on the implementation only), script/create/mint/upgrade/upload/blob '
                      'specific fields, witnesses, storage slots, upgrade purpose, receipts',
                      'byte arrays and integers are carried as values; protobuf wire encoding (prost) is outside the model',
                      'the model is hand-mirrored per field (schema in Aggr/Model.v)'],
